@@ -16,10 +16,10 @@ from framework import TranslateError  # noqa: F401
 PID = "C11"
 PROPS_FILE = "Props/C11.v"
 GEN_FILES = ["Gen/C11_rng.v"]
-MODEL_FILES = ["Model/C11_seeds.v"]
+MODEL_FILES = ["Model/C11_seeds.v", "Gen/C11_rng.v"]      # what the case terms need; they still evaluate when a proof breaks
 ALLOWED_AXIOMS: list[str] = []
 CASE_HEADER = ("From Coq Require Import ZArith Bool String.\n"
-               "From LK Require Import Model.C11_seeds Gen.C11_rng Proofs.C11_gen.")
+               "From LK Require Import Model.C11_seeds Gen.C11_rng.")
 SHARD = 80
 TRUSTED = [
     "Coq 8.16.1 kernel + vm_compute (no native_compute); Print Assumptions of every theorem in Props/C11.v: closed under the global context",
@@ -33,6 +33,9 @@ TRUSTED = [
     "(this is the PARTIAL part of chunking_irrelevant_partial); on matrices of about 2^20 entries BLAS with 2 backend threads sums in a "
     "different order than with 1 (implicit ALS, TruncatedSVD differ in the last bits on the unchanged tree), so across backend-thread counts the "
     "large models are compared up to 1e-6 of their scale, and not at all for TruncatedSVD / FlexMF (not continuous in rounding)",
+    "a SeedSequence OBJECT given to Pipeline.train is spawned from (numpy counts its children in the caller's object), a Generator advances: "
+    "both are the caller's state, so one options object reused across trainings is judged for int / list seeds everywhere and for "
+    "SeedSequence objects in direct component trainings",
     "relational harness: every operation is run twice (or under several configurations / request orders) and sha256-based digests of the canonical "
     "results are compared inside Coq",
 ]
@@ -53,7 +56,11 @@ RULE = ("relational cases: splitters (crossfold/sample, records/users, every bra
         "operation (0, the empty sequence, [s], 2^31, 2^32-1, 2^32, 2^63-1, 2^63, 2^64-1, 2^64, 2^128+5; as int / list / SeedSequence / Generator / "
         "BitGenerator where accepted) plus grids ranker x edge seed and splitter x seed 0.  Every in-process operation is also repeated under "
         "another AMBIENT state (DEBUG / TRACE logging for the lenskit loggers, warnings filter, re-seeded numpy / random / torch / lenskit global "
-        "generators) and must give the same result (grid: every model under DEBUG logging).  One large-matrix case per quick run: models whose "
+        "generators) and must give the same result (grid: every model under DEBUG logging).  Every training case also hands ONE "
+        "TrainingOptions object (seed-like rng: int / list / SeedSequence) to a sequence of three trainings -- the case's own, a second "
+        "(same kind with another configuration or another kind, direct or through a pipeline), the first again (re-training the same "
+        "object or a new one) -- and each must equal the training done with a fresh, equal options object (grid: every model, sweep + "
+        "re-training).  One large-matrix case per quick run: models whose "
         "user and item embedding matrices have more entries than the largest size constant found in the graph sources (at least 2^20), one epoch, "
         "about one rating per row, worker threads {1,2,4} with one backend thread (bit-identical required) and (1,2) (equal up to rounding "
         "required for ALS / implicit ALS / FunkSVD).  non-trivial = the operation consumed "
@@ -202,8 +209,16 @@ def gen_ranker_case(rng):
 def gen_train_case(rng):
     kind = rng.choice(TRAIN_KINDS)
     cfg = L.gen_config(rng, kind)
-    return {"type": "train", "kind": kind, "cfg": cfg, "dataset": L.gen_dataset(rng, 0), "seed_kind": rng.choice(TRAIN_SEED_KINDS),
-            "seed": gen_seed(rng), "seed2": rng.randint(10**6 + 1, 2 * 10**6), "pipeline": rng.chance(1, 4), "ambient": gen_ambient(rng)}
+    c = {"type": "train", "kind": kind, "cfg": cfg, "dataset": L.gen_dataset(rng, 0), "seed_kind": rng.choice(TRAIN_SEED_KINDS),
+         "seed": gen_seed(rng), "seed2": rng.randint(10**6 + 1, 2 * 10**6), "pipeline": rng.chance(1, 4), "ambient": gen_ambient(rng)}
+    # ONE TrainingOptions object serving a sequence of trainings (parameter sweep, other components, re-training):
+    # the case's own training, a second one (same kind with another configuration, or another kind; direct or through a
+    # pipeline), then the first again -- on the component / pipeline object of the first call (re-training) or a new one
+    r = rng.fork("reuse")
+    k2 = kind if r.chance(1, 2) else r.choice(TRAIN_KINDS)
+    c["reuse"] = {"second": {"kind": k2, "cfg": L.gen_config(r, k2), "pipeline": r.chance(1, 4)},
+                  "third": r.choice(["retrain", "new"])}
+    return c
 
 
 def gen_big_dataset(rng):
@@ -339,7 +354,10 @@ def grid_cases(rng):
             c = gen_train_case(rng.fork(("grid-train", kind, pipeline)))
             c.update(kind=kind, cfg=L.gen_config(rng.fork(("grid-cfg", kind, pipeline)), kind), pipeline=pipeline,
                      ambient={"log": "DEBUG", "warnings": None, "global_rng": None},
-                     seed=0 if pipeline else c["seed"], seed_kind="int" if pipeline else c["seed_kind"])
+                     seed=0 if pipeline else c["seed"], seed_kind="int" if pipeline else c["seed_kind"],
+                     # parameter sweep with one options object: the same kind with another configuration, then the first again
+                     reuse={"second": {"kind": kind, "cfg": L.gen_config(rng.fork(("grid-cfg2", kind, pipeline)), kind), "pipeline": False},
+                            "third": "new" if pipeline else "retrain"})
             out.append(c)
     for j in range(12):
         c = gen_split_case(rng.fork(("grid-split", j)))
@@ -551,25 +569,78 @@ def run_ranker(case):
     return obs
 
 
-def train_once(case, seed):
-    from lenskit.training import TrainingOptions
-    ds = L.dataset(case["dataset"])
-    rng = make_seed_obj(case["seed_kind"], seed)
-    if case["pipeline"]:
+def build_trainee(step):
+    """A new component, or a new standard pipeline around it."""
+    c = L.make(step["kind"], step["cfg"])
+    if step["pipeline"]:
         from lenskit.pipeline import topn_pipeline
-        p = topn_pipeline(L.make(case["kind"], case["cfg"]), predicts_ratings=True)
-        p.train(ds, TrainingOptions(rng=rng))
+        return topn_pipeline(c, predicts_ratings=True)
+    return c
+
+
+def trained_state(step, obj):
+    if step["pipeline"]:
         from props.c18 import pipe_components
         st = {}
-        for n, c, t in pipe_components(p):
+        for n, c, t in pipe_components(obj):
             if t:
                 for k, v in L.store_of(c).items():
                     if not k.startswith("_"):
                         st[n + "." + k] = v
         return st
-    c = L.make(case["kind"], case["cfg"])
-    c.train(ds, TrainingOptions(rng=rng))
-    return {k: v for k, v in L.store_of(c).items() if not k.startswith("_")}
+    return {k: v for k, v in L.store_of(obj).items() if not k.startswith("_")}
+
+
+def train_once(case, seed, step=None):
+    from lenskit.training import TrainingOptions
+    step = step or case
+    ds = L.dataset(case["dataset"])
+    obj = build_trainee(step)
+    obj.train(ds, TrainingOptions(rng=make_seed_obj(case["seed_kind"], seed)))
+    return trained_state(step, obj)
+
+
+def reuse_steps(case):
+    """The trainings that share one options object.  Only seed-like values are judged: a Generator advances by design
+    (its state is the caller's), and so does the child numbering of a SeedSequence OBJECT that Pipeline.train spawns
+    from -- with a SeedSequence every step is a direct component training (default_rng(seq) leaves it untouched)."""
+    ru = case.get("reuse")
+    if not ru or case["seed_kind"] not in TRAIN_SEED_KINDS:
+        return []
+    first = {"kind": case["kind"], "cfg": case["cfg"], "pipeline": case["pipeline"]}
+    steps = [dict(first, ref="a", on=None), dict(ru["second"], ref="fresh", on=None),
+             dict(first, ref="a", on=0 if ru["third"] == "retrain" else None)]
+    if case["seed_kind"] == "seedseq":
+        steps = [dict(s, pipeline=False) for s in steps]
+        if case["pipeline"]:
+            for s in steps:
+                s["ref"] = "fresh"
+    return steps
+
+
+def train_reusing(case):
+    """One TrainingOptions(rng=<seed>) object handed to every training of the sequence; next to each result the same
+    training done with a fresh, equal options object."""
+    from lenskit.training import TrainingOptions
+    steps = reuse_steps(case)
+    ds = L.dataset(case["dataset"])
+    opts = TrainingOptions(rng=make_seed_obj(case["seed_kind"], case["seed"]))
+    objs, got, refs = [], [], {}
+    for s in steps:
+        obj = objs[s["on"]] if s["on"] is not None else build_trainee(s)
+        objs.append(obj)
+        obj.train(ds, opts)
+        got.append(trained_state(s, obj))
+    fresh = []
+    for s in steps:
+        if s["ref"] == "a":
+            fresh.append(None)            # the case's first run
+        else:
+            key = json.dumps([s["kind"], s["cfg"], s["pipeline"]], sort_keys=True)
+            if key not in refs:
+                refs[key] = train_once(case, case["seed"], s)
+            fresh.append(refs[key])
+    return {"got": got, "fresh": fresh}
 
 
 ENTRY_OF = {"als": "ALSBase.training_loop", "ials": "ALSBase.training_loop", "funk": "FunkSVDScorer.train", "svd": "BiasedSVDScorer.train",
@@ -588,6 +659,11 @@ def run_train(case):
             obs["amb"] = under(case, lambda: train_once(case, case["seed"]))
             if a == b and obs["amb"] != a:
                 obs["blame"] = blame(case, lambda: train_once(case, case["seed"]), a)
+        if reuse_steps(case):
+            try:
+                obs["reuse"] = train_reusing(case)
+            except (KeyError, ValueError, RuntimeError) as e:     # the second component may refuse the data
+                obs["reuse_error"] = type(e).__name__
     except (KeyError, ValueError, RuntimeError) as e:
         return {"error": type(e).__name__}
     return obs
@@ -694,6 +770,15 @@ def same_store(a: dict, b: dict) -> str:
     return f"zlist_eqb {zl([a.get(k, -1) for k in keys])} {zl([b.get(k, -2) for k in keys])}"
 
 
+def reuse_pairs(obs):
+    for got, ref in zip(obs["reuse"]["got"], obs["reuse"]["fresh"]):
+        yield got, (obs["a"] if ref is None else ref)
+
+
+def step_text(s):
+    return s["kind"] + (" through a pipeline" if s["pipeline"] else "") + (" (re-training the object of call 1)" if s["on"] is not None else "")
+
+
 def coq_term(case, obs):
     t = case["type"]
     if obs.get("error") or (t in ("split",) and (obs["a"].get("error") or obs["b"].get("error"))):
@@ -708,6 +793,10 @@ def coq_term(case, obs):
         return f"{entry_closed(obs['entry'])} && zlist_eqb {zl(obs['a'])} {zl(obs['b'])}" + amb
     if t == "train":
         amb = f" && {same_store(obs['a'], obs['amb'])}" if "amb" in obs else ""
+        if "reuse" in obs:        # the generated plan of TrainingOptions predicts: every training equals its fresh-options twin
+            amb += " && plan_fresh training_options_plan"
+            for got, ref in reuse_pairs(obs):
+                amb += f" && {same_store(got, ref)}"
         return f"{entry_closed(obs['entry'])} && {same_store(obs['a'], obs['b'])}" + amb
     if t == "ranker":
         if not case["derived"]:
@@ -823,6 +912,16 @@ def oracle(case, obs):
             v.append((f"not-reproducible:{what}", f"training twice with the same {seed_text(case)} gave different {bad}"))
         else:
             ambient_check(case, obs, what, v)
+            if "reuse" in obs:
+                steps = reuse_steps(case)
+                for j, ((got, ref), s) in enumerate(zip(reuse_pairs(obs), steps)):
+                    if got != ref:
+                        bad = sorted(k for k in set(got) | set(ref) if got.get(k) != ref.get(k))
+                        v.append((f"options-object-reused:train:{s['kind']}" + (":pipeline" if s["pipeline"] else ""),
+                                  f"ONE TrainingOptions object ({seed_text(case)}) handed to {len(steps)} trainings "
+                                  f"({'; '.join(step_text(t) for t in steps)}): training #{j + 1} differs in {bad} from the same training "
+                                  "with a fresh, equal options object -- something is carried from one training to the next"))
+                        break
     elif t == "ranker":
         if case["derived"]:
             ans = {}
@@ -942,6 +1041,12 @@ def counters(case, obs):
             yield "train-error=" + obs["error"]
         else:
             yield "other-seed-" + ("differs" if obs["a"] != obs["other"] else "same")
+        if obs.get("reuse_error"):
+            yield "options-object-reused-error=" + obs["reuse_error"]
+        if "reuse" in obs:
+            st = reuse_steps(case)
+            yield "options-object-reused=" + "/".join(("pipeline" if s["pipeline"] else "direct") + ("-retrain" if s["on"] is not None else "") for s in st)
+            yield "options-object-reused-second=" + ("same-kind" if st[1]["kind"] == st[0]["kind"] else "other-kind")
     elif t == "threads":
         for cfg, r in zip(case["configs"], obs["runs"]):
             yield f"threads={cfg[0]}/backend={cfg[1]}/torch={r['_config']['torch_threads']}/interop={r['_config']['torch_interop']}"
